@@ -57,7 +57,14 @@ func ruleMergeSourcesPrivate(rule string) func(p *Prog, r *Result) {
 		inFamily := func(f *ssa.Function) bool { return g.SameSCC(merge, f) || f == merge }
 		n := 0
 		sources := map[string]bool{"bkl.get": true, "bkl.getWithVar": true}
+		live := map[*ssa.Function]bool{}
+		for _, f := range p.reachableRepoFuncs() {
+			live[f] = true
+		}
 		for _, fn := range p.Funcs {
+			if !live[topFunc(fn)] {
+				continue // dead code (a helper left behind after inlining) cannot hand anything to merge
+			}
 			for _, e := range g.Out[fn] {
 				if e.Kind == "funcarg" || e.Kind == "extcallback" || !p.InRepo(e.Callee) {
 					continue
@@ -84,6 +91,20 @@ func ruleMergeSourcesPrivate(rule string) func(p *Prog, r *Result) {
 				}
 				if !outside && !perElement {
 					continue
+				}
+				// a merge entry point that merely forwards its own source parameter: the obligation lies with its callers
+				if outside && fn.Parent() == nil {
+					if myIdx, isEntryFn := mergeEntries[p.FuncName(fn)]; isEntryFn && myIdx < len(fn.Params) {
+						fwd := true
+						for _, d := range p.Derive(args[idx], nil) {
+							if d.Root != fn.Params[myIdx] || d.Strict {
+								fwd = false
+							}
+						}
+						if fwd {
+							continue
+						}
+					}
 				}
 				n++
 				key := fmt.Sprintf("%s -> %s / source argument", p.FuncName(fn), p.FuncName(e.Callee))
